@@ -1,6 +1,7 @@
 (* Extraction of the executable model and specification of C10 (ExtrOcamlBasic only). *)
-From MptV Require Import Base.Mem C10.ConfigModel C10.ConfigSpec.
+From MptV Require Import Base.Mem C10.ConfigModel C10.ConfigSpec C16.Locate C10.LocateModel.
 Require Import ExtrOcamlBasic.
 Extraction "c10_model.ml" path_init path_set path_next path_last path_del path_add path_post path_walk
   str_path str_key cstep rstep sstep slookup pstep pwalk astep
-  wstep xstep wsstep xsstep get_view squery del_path del_key str_key_end node_at item_at meta_set_cell cell_text cell_spec.
+  wstep xstep wsstep xsstep get_view squery del_path del_key str_key_end node_at item_at meta_set_cell cell_text cell_spec
+  node_locate locate_kth lquery squery_l ident_of_name ident_nameless key_of_name.
